@@ -10,6 +10,7 @@ records is an explicit input.
 -/
 import SpsdkVerif.Proofs.Rkht
 import SpsdkVerif.Proofs.CertBlock
+import SpsdkVerif.Proofs.CertBlockRom
 
 namespace SpsdkVerif.C03
 open SpsdkVerif SpsdkVerif.Spec SpsdkVerif.Rkht SpsdkVerif.CertBlock
@@ -351,6 +352,162 @@ theorem isk_signature_verifies (hc : CryptoLaws c) (alg : SigAlg) (sk rand keyRe
   simp only [iskSign, hs, ht, List.isEmpty_nil, Bool.not_true, Bool.false_eq_true, ↓reduceIte]
   rfl
 
+/-! ## 6b. The exported blocks inside their containers (phase 2)
+
+Certificate blocks are embedded in MBI, SB 2.1 and SB 3.1 files.  The theorems below are stated in the form the other
+properties need: the export is self-delimiting (a parser / ROM that knows only where the block starts reads exactly
+`|export cb|` bytes), and the ROM models of C02 (`Spec/MbiRom.lean`) and C05 (`Model/Sb31.lean`) accept an exported block
+against the documented fuse value and report the right signing key.  They discharge `RomCertV1OK` / `RomCertV21OK`
+(Proofs/MbiRomDefs.lean) and `DevOK.cert` (Model/Sb31.lean), which those properties keep as hypotheses. -/
+
+/-- v1: `parse (export cb ‖ rest)` gives the block back whatever follows; the exported length is
+    `align(32 + cert_table_length + 128, alignment)` (`raw_size` / `expected_size`), computable from the header alone -/
+theorem certblock_v1_self_delimiting (certOk : Bytes → Bool) (cb : CertBlockV1) (wf : WFv1 certOk cb) (rest : Bytes) :
+    parseV1Block certOk (bytesV1 cb ++ rest) = .ok { cb with rkh := pad4 cb.rkh, alignment := Gen.cbV1Alignment } ∧
+    (bytesV1 cb).length = Misc.alignNat (32 + certTableLength cb.certs + 128) cb.alignment ∧
+    (headerV1Parse (bytesV1 cb ++ rest)).map (·.certTableLength) = .ok (certTableLength cb.certs) := by
+  refine ⟨parse_exportV1_tail certOk cb wf rest, bytesV1_length certOk cb wf, ?_⟩
+  have := parse_exportV1_tail certOk cb wf rest
+  generalize hpad : List.replicate (Misc.alignNat (bodyV1 cb).length cb.alignment - (bodyV1 cb).length) (0 : UInt8) = pad
+  have hb : bytesV1 cb ++ rest = Gen.cbV1Signature ++ (leEnc 2 cb.major ++ (leEnc 2 cb.minor ++ (leEnc 4 32 ++ (leEnc 4 cb.flags ++
+      (leEnc 4 cb.buildNumber ++ (leEnc 4 cb.imageLength ++ (leEnc 4 cb.certs.length ++
+      (leEnc 4 (certTableLength cb.certs) ++ ((cb.certs.map (fun c => leEnc 4 c.length ++ c)).flatten ++
+        ((pad4 cb.rkh).flatten ++ (pad ++ rest))))))))))) := by
+    unfold bytesV1; rw [hpad]; simp only [bodyV1, List.append_assoc]
+  rw [hb, headerV1Parse_ok certOk cb wf _]; rfl
+
+/-- v2.1: `parse (export cb ‖ rest) = cb`, the `cert_block_size` word is the exported length, and that length is
+    12 + (4 + table + root key) + (ISK: 12 + key + user data + signature) — `expected_size` -/
+theorem certblock_v21_self_delimiting (pointOk : Bytes → Bool) (ca : Bool) (used : Nat) (cv : Curve) (cb : CertBlockV21)
+    (wf : WFv21 c pointOk ca used cv cb) (rest : Bytes) :
+    parseV21Block c pointOk (bytesV21 cb ++ rest) = .ok cb ∧
+    headerV21Parse (bytesV21 cb ++ rest) = .ok (cb.major, cb.minor, (bytesV21 cb).length) ∧
+    (bytesV21 cb).length = headerSizeV21 + (rkrBytes cb.rkr).length + (match cb.isk with | some i => (iskBytes i).length | none => 0) :=
+  ⟨parse_exportV21 wf rest, sizeWord_bytesV21 wf rest, (bytesV21_length cb).1⟩
+
+/-- SB 3.1 loader model of C05 (`Sb31.Rom.romCert`): a well-formed exported block whose ISK signature verifies is accepted
+    against the fuse value of its root key record; the loader names the signing key (ISK if present, else the root key) -/
+theorem rom_sb31_accepts_export (pointOk : Bytes → Bool) (ca : Bool) (used : Nat) (cv : Curve) (cb : CertBlockV21)
+    (wf : WFv21 c pointOk ca used cv cb) (rwf : RomWF c used cv cb)
+    (hsig : ∀ i, cb.isk = some i →
+      c.verify (.ecdsa cv.hashAlg) cb.rkr.rootPublicKey (rkrBytes cb.rkr ++ iskSignedPart i) i.signature = true) :
+    Sb31.Rom.romCert c (rotkhOfRecord c cv cb.rkr) (bytesV21 cb) =
+      .ok (⟨(signerOf cv cb).1, (signerOf cv cb).2⟩,
+           match cb.isk with
+           | none => []
+           | some i => [⟨cv.hashAlg.size, cb.rkr.rootPublicKey, rkrBytes cb.rkr ++ iskSignedPart i, i.signature⟩]) :=
+  sb31_romCert_accepts wf rwf hsig
+
+/-- MBI ROM model of C02, v2.1 block: `RomCertV21OK` holds for every well-formed exported block -/
+theorem rom_mbi_v21_accepts_export (pointOk : Bytes → Bool) (ca : Bool) (used : Nat) (cv : Curve) (cb : CertBlockV21)
+    (wf : WFv21 c pointOk ca used cv cb) (rwf : RomWF c used cv cb) (renv : Spec.MbiRom.RomEnv)
+    (hrkth : renv.rkth = rotkhOfRecord c cv cb.rkr) :
+    Mbi.RomCertV21OK c renv (bytesV21 cb) (signerOf cv cb).1.length (signerOf cv cb).1 (fun _ _ => obsOf cb) :=
+  mbi_romCertV21_ok wf rwf renv hrkth
+
+/-- MBI ROM model of C02, v1 block: `RomCertV1OK` holds for every well-formed exported block (version 1.0, ≤ 4 non-empty
+    certificates, alignment 4) - for EVERY `image_length` the MBI export patches in -/
+theorem rom_mbi_v1_accepts_export (certOk : Bytes → Bool) (cb : CertBlockV1) (wf : WFv1 certOk cb) (rwf : RomWFv1 cb)
+    (renv : Spec.MbiRom.RomEnv) (hrkth : renv.rkth = c.hash .sha256 (pad4 cb.rkh).flatten) :
+    Mbi.RomCertV1OK c renv (bytesV1 cb) (relCerts cb.certs 32) (pad4 cb.rkh) :=
+  mbi_romCertV1_ok wf rwf renv hrkth
+
+/-- END TO END, v2.1: the block SPSDK builds from root keys of the documented domain is accepted by both ROM models against
+    the documented fuse value `Spec.rotkh`, and the selected root key is reported as the signer -/
+theorem rom_accepts_built_v21 (hc : CryptoLaws c) (ks : List Key) (h : KeysOK .certBlock21 ks) (used : Nat) (hu : used < ks.length) :
+    ∃ (r : RootKeyRecord) (cv : Curve) (ku : Key), rkrCalculate c true ks used = .ok r ∧ ks[used]? = some ku ∧
+      exportV21Block ⟨2, 1, r, none⟩ = .ok (bytesV21 ⟨2, 1, r, none⟩) ∧
+      Sb31.Rom.romCert c (Spec.rotkh c .certBlock21 ks) (bytesV21 ⟨2, 1, r, none⟩) = .ok (⟨ku.material, cv.hashAlg.size⟩, []) ∧
+      ∀ renv : Spec.MbiRom.RomEnv, renv.rkth = Spec.rotkh c .certBlock21 ks →
+        Mbi.RomCertV21OK c renv (bytesV21 ⟨2, 1, r, none⟩) ku.material.length ku.material (fun _ _ => []) :=
+  built_v21_block_accepted c hc ks h used hu
+
+/-- END TO END, v1: with the RKH table `CertBlockV1.set_root_key_hash` computes from the root keys, the MBI ROM accepts the
+    block against the documented fuse value `Spec.rotkh … cert_block_1` -/
+theorem rom_accepts_built_v1 (hc : CryptoLaws c) (ks : List Key) (h : KeysOK .certBlock1 ks) (certOk : Bytes → Bool)
+    (cb : CertBlockV1) (wf : WFv1 certOk cb) (rwf : RomWFv1 cb) (hrkh : certBlockV1Rkh c ks = .ok cb.rkh)
+    (renv : Spec.MbiRom.RomEnv) (hr : renv.rkth = Spec.rotkh c .certBlock1 ks) :
+    Mbi.RomCertV1OK c renv (bytesV1 cb) (relCerts cb.certs 32) (pad4 cb.rkh) :=
+  built_v1_block_accepted c hc ks h wf rwf hrkh renv hr
+
+/-- the ISK signature created at export by the selected root key satisfies the ROM's check -/
+theorem rom_isk_signature_ok (hc : CryptoLaws c) (alg : HashAlg) (sk rand : Bytes) (r : RootKeyRecord) (i : IskCert)
+    (hpub : r.rootPublicKey = c.pubOf sk) (hs : i.signature = c.sign (.ecdsa alg) sk (rkrBytes r ++ iskSignedPart i) rand) :
+    c.verify (.ecdsa alg) r.rootPublicKey (rkrBytes r ++ iskSignedPart i) i.signature = true :=
+  isk_signature_accepted c hc alg sk rand r i hpub hs
+
+/-! ## 6c. ISK certificate lite / certificate block Vx (MC56F8xxxx; phase 2) -/
+
+/-- to-be-signed data = magic 0x4D43 ‖ version 1 ‖ constraints ‖ X‖Y (72 bytes); the export appends the 64-byte signature;
+    parse ∘ export = id (trailing bytes ignored), and `CertBlockVx.parse` keeps certificates with constraints 0 / 1 -/
+theorem isk_lite_roundtrip (pointOk : Bytes → Bool) (i : IskLite) (wf : WFlite pointOk i) (tail : Bytes) :
+    liteTbs i = .ok (leEnc 2 0x4D43 ++ leEnc 2 1 ++ leEnc 4 i.constraints ++ i.pubKey) ∧
+    liteExport i = .ok (liteBytes i) ∧ (liteBytes i).length = 136 ∧
+    liteParse pointOk (liteBytes i ++ tail) = .ok i ∧
+    ((i.constraints = 0 ∨ i.constraints = 1) → vxParse pointOk (liteBytes i ++ tail) = .ok i) := by
+  refine ⟨liteTbs_ok pointOk i wf, liteExport_ok pointOk i wf, ?_, liteParse_export pointOk i wf tail,
+    fun h => vxParse_export pointOk i wf h tail⟩
+  simp only [liteBytes, List.length_append, CertBlock.leEnc_len, wf.pub, wf.sig]
+
+/-- the lite certificate's signature verifies over exactly the 72 to-be-signed bytes = the exported bytes before it -/
+theorem isk_lite_signature_verifies (hc : CryptoLaws c) (pointOk : Bytes → Bool) (alg : SigAlg) (sk rand : Bytes) (i : IskLite)
+    (wf : WFlite pointOk i) (tbs : Bytes) (ht : liteTbs i = .ok tbs) :
+    c.verify alg (c.pubOf sk) tbs (c.sign alg sk tbs rand) = true ∧ tbs = (liteBytes i).take 72 := by
+  refine ⟨hc.verify_sign alg sk tbs rand, ?_⟩
+  rw [liteTbs_ok pointOk i wf] at ht
+  injection ht with ht
+  rw [← ht, liteBytes]
+  exact (List.take_left' (by simp only [List.length_append, CertBlock.leEnc_len, wf.pub])).symm
+
+/-- the OTP fuse words of `get_otp_script` are the certificate hash, each 4-byte group byte-reversed -/
+theorem vx_fuse_words (h : Bytes) (hl : h.length = 16) : ((vxFuseWords h).map List.reverse).flatten = h :=
+  vxFuseWords_hash h hl
+
+theorem generated_lite_constants_agree :
+    Generated.RotTypes.liteMagic = 0x4D43 ∧ Generated.RotTypes.liteVersion = 1 ∧ Generated.RotTypes.liteHeaderFormat = "<HHI" ∧
+    Generated.RotTypes.liteHeaderWidths = [2, 2, 4] ∧ Generated.RotTypes.litePubKeyLength = 64 ∧
+    Generated.RotTypes.liteSignatureSize = 64 ∧ Generated.RotTypes.liteSignatureOffset = 72 ∧
+    Generated.RotTypes.vxCertHashLength = 16 ∧
+    -- the "no offset" magic `IskCertificate.parse` looks for is the lite certificate's magic
+    Generated.RotTypes.iskNoOffsetMagic = Generated.RotTypes.liteMagic ∧
+    Generated.RotTypes.iskNoOffsetSigOffset = Generated.RotTypes.liteSignatureOffset := by
+  repeat' apply And.intro
+  all_goals decide
+
+/-! ## 6d. The fuse value binds the key list (negative statements as reductions; phase 2) -/
+
+/-- cert block v1: two key lists of the documented domain with equally many keys and the same RKTH are the same list, or the
+    proof exhibits a SHA-256 collision.  (Equal lengths are needed: an unused slot is 32 zero bytes, indistinguishable from a
+    key whose hash is zero - finding such a key is a preimage, not one of the `Break` cases.) -/
+theorem rot_binding_v1 (hc : CryptoLaws c) (ks ks' : List Key) (h : KeysOK .certBlock1 ks) (h' : KeysOK .certBlock1 ks')
+    (hl : ks.length = ks'.length) (he : Spec.rotkh c .certBlock1 ks = Spec.rotkh c .certBlock1 ks') : ks = ks' ∨ Crypto.Break c := by
+  rw [rotkh_cb1, rotkh_cb1] at he
+  exact rotkhV1_binding c hc ks ks' h h' hl he
+
+/-- cert block v2.1 / debug-credential CTRK hash: the same.  (Equal lengths are needed: the value of ONE key X‖Y is its hash,
+    the value of several keys is the hash of their hashes - 64 bytes X‖Y could equal H(k₁)‖H(k₂).) -/
+theorem rot_binding_v21 (hc : CryptoLaws c) (ks ks' : List Key) (h : KeysOK .certBlock21 ks) (h' : KeysOK .certBlock21 ks')
+    (hl : ks.length = ks'.length) (he : Spec.rotkh c .certBlock21 ks = Spec.rotkh c .certBlock21 ks') : ks = ks' ∨ Crypto.Break c := by
+  rw [rotkh_cb21, rotkh_cb21] at he
+  exact rotkhV21_binding c hc ks ks' h h' hl he
+
+/-- the SB3.1 loader accepts a well-formed exported block exactly against the fuse value of its root key record -/
+theorem rom_sb31_accepts_only_its_rot (pointOk : Bytes → Bool) (ca : Bool) (used : Nat) (cv : Curve) (cb : CertBlockV21)
+    (wf : WFv21 c pointOk ca used cv cb) (rwf : RomWF c used cv cb)
+    (hsig : ∀ i, cb.isk = some i →
+      c.verify (.ecdsa cv.hashAlg) cb.rkr.rootPublicKey (rkrBytes cb.rkr ++ iskSignedPart i) i.signature = true)
+    (rot : Bytes) : (∃ x, Sb31.Rom.romCert c rot (bytesV21 cb) = .ok x) ↔ rot = rotkhOfRecord c cv cb.rkr := by
+  constructor
+  · rintro ⟨x, hx⟩; exact sb31_romCert_ok_rot wf rwf hsig rot x hx
+  · intro e; subst e; exact ⟨_, sb31_romCert_accepts wf rwf hsig⟩
+
+/-- a device fused for `ks` accepts the block built from another key list of the same length only if a hash collision is exhibited -/
+theorem rom_refuses_other_key_list (hc : CryptoLaws c) (ks ks' : List Key) (h : KeysOK .certBlock21 ks) (h' : KeysOK .certBlock21 ks')
+    (hl : ks'.length = ks.length) (used : Nat) (hu : used < ks'.length) (r' : RootKeyRecord)
+    (hcalc : rkrCalculate c true ks' used = .ok r') (x : Sb31.Rom.CertInfo × List Sb31.Rom.SigOb)
+    (hacc : Sb31.Rom.romCert c (Spec.rotkh c .certBlock21 ks) (bytesV21 ⟨2, 1, r', none⟩) = .ok x) : ks' = ks ∨ Crypto.Break c :=
+  rom_refuses_other_keys c hc ks ks' h h' hl used hu r' hcalc x hacc
+
 /-! ## 7. Non-vacuity and sanity examples -/
 
 /-- a 2048-bit modulus with the top bit set, e = 65537 -/
@@ -391,6 +548,26 @@ example : WFv1 (fun _ => true) cb1Ex :=
   { major := by decide, minor := by decide, flags := by decide, build := by decide, image := by decide, certs_ne := by decide,
     certs := by decide, count := by decide, table := by decide, rkh_len := by decide, rkh := by decide, align := by decide }
 example : (parseV1Block (fun _ => true) (bytesV1 cb1Ex)).map (·.imageLength) = .ok 0x1234 := by decide +kernel
+
+example : WFlite (fun _ => true) { constraints := 1, pubKey := List.replicate 64 7, signature := List.replicate 64 9 } :=
+  { constraints := by decide, pub := rfl, point := rfl, sig := rfl }
+
+/-- a block acceptable to the MBI ROM: version 1.0, alignment 4 -/
+def cb1RomEx : CertBlockV1 := { cb1Ex with alignment := 4 }
+example : WFv1 (fun _ => true) cb1RomEx ∧ RomWFv1 cb1RomEx :=
+  ⟨{ major := by decide, minor := by decide, flags := by decide, build := by decide, image := by decide, certs_ne := by decide,
+     certs := by decide, count := by decide, table := by decide, rkh_len := by decide, rkh := by decide, align := by decide },
+   { major := rfl, minor := rfl, count := by decide, nonempty := by decide, align := rfl }⟩
+
+/-- a well-formed v2.1 block without ISK certificate (two P-256 key hashes, used index 1) - for every hash function -/
+def cb21Ex : CertBlockV21 :=
+  { major := 2, minor := 1, isk := none,
+    rkr := { flags := rkrFlags true 1 2 .p256, rkh := [List.replicate 32 1, List.replicate 32 2], rootPublicKey := List.replicate 64 3 } }
+example : WFv21 c (fun _ => true) true 1 .p256 cb21Ex :=
+  { major := by decide, minor := by decide, isk_none := fun _ => rfl, isk_some := fun h => (by cases h), size := by decide,
+    rkr := { cv_ok := by decide, used_lt := by decide, count1 := by decide, count4 := by decide, flags := rfl, rkh := by decide,
+             pk := by decide, single := fun h => absurd h (by decide) } }
+example : (bytesV21 cb21Ex).length = 12 + 4 + 64 + 64 := by decide +kernel
 
 /-- the order of the keys matters (here: for every `c` that separates the two tables) — stated on the table -/
 theorem order_matters_example (k1 k2 : Key) : rkhTableV1 c [k1, k2] = rkhTableV1 c [k2, k1] →
